@@ -85,3 +85,29 @@ def _bounds(cfg, r):
 
 def _short(fn):
     return re.sub(r"<impl at [^>]*/([^/>:]+):(\d+):[^>]*>", r"<impl \1:\2>", fn)
+
+
+def replay_failure(failure):
+    """native replay of the two notify races through the schedule-point hook; other schedules are
+    solver witnesses over the extracted CFAs (no native scheduler for them)"""
+    from .mirsym_engine import run_replay
+    role = failure.role
+    cmd = None
+    if "waiter-sleeps-with-count-zero" in role:
+        cmd, needle = "waitgroup_race\n", "waitgroup wait BLOCKED count=0"
+    elif "sender-sleeps-although-a-peer-connected" in role:
+        cmd, needle = "lb_wait_race\n", "lb wait BLOCKED peers=1"
+    if cmd is None:
+        failure.replayed, failure.replay_note = None, "schedule is a solver witness over the CFAs extracted from MIR; no native scheduler hook for this operation"
+        return
+    notes, hit_any = [], False
+    for profile in ("debug", "release"):
+        try:
+            out, rc = run_replay(cmd, profile)
+        except Exception as ex:
+            notes.append(f"{profile}: could not run: {ex!r}"[:200])
+            continue
+        hit = needle in out
+        notes.append(f"{profile}: {'reproduced' if hit else 'not reproduced'} ({out.strip()[:80]})")
+        hit_any = hit_any or hit
+    failure.replayed, failure.replay_note = hit_any, "schedule replayed with real code via the rzmq_verif schedule point; " + "; ".join(notes)
